@@ -2035,6 +2035,63 @@ def fields_of_rule_are_named(r):
     return "@" not in fs and not any(isinstance(e, Inc) for e in peg.sub_exprs(r.body))
 
 
+def fam_big(tier, seed):
+    """counts: many rules, fields, alternatives, sequence parts, enum variants, memoized rules, checks"""
+    rnd = random.Random(seed * 7919 + 111)
+    out = []
+
+    def mk(name, rules, alpha, extra, maxlen=2):
+        g = Grammar("big_%04d" % len(out), rules, root="S", maxlen=maxlen, meta={"shape": name})
+        g.alpha = alpha
+        g.extra = [list(x) for x in extra]
+        if well_formed(g):
+            out.append(g)
+
+    letters = "abcdefghijklmnopqrstuvwxyz"
+    for n in (17, 33, 70):
+        # a chain of n rules, each adding one letter; the last ones are reached only by long inputs
+        rules = [Rule("S", Seq(Call("R0", "r"), Eoi()), export=True, no_skip_ws=True)]
+        for i in range(n):
+            nxt = [Opt(Call("R%d" % (i + 1), "next"))] if i + 1 < n else []
+            rules.append(Rule("R%d" % i, Seq(Lit(letters[i % 3]), *nxt), no_skip_ws=True, position=(i % 5 == 0), memoize=(i % 7 == 3)))
+        word = "".join(letters[i % 3] for i in range(n))
+        mk("chain_of_%d_rules" % n, rules, ["a", "b", "c"], [word, word[:-1], word + "a", word[:n // 2], word[:n // 2] + "x"])
+        # n alternatives, told apart by their last character
+        alts = [Seq(Lit("k" * (i // 26) + letters[i % 26]), Call("A", "f%d" % (i % 4))) for i in range(n)]
+        mk("choice_of_%d_alternatives" % n, [Rule("S", Choice(*alts), export=True, no_skip_ws=True), Rule("A", Lit("!"), no_skip_ws=True, position=True)],
+           ["a", "k", "!", "z"], ["kk" + letters[(n - 1) % 26] + "!", letters[(n - 1) % 26] + "!", "k" * ((n - 1) // 26) + letters[(n - 1) % 26] + "!",
+                                  "q!", "kq!", "kkr!", "kkz"], maxlen=2)
+        # a sequence of n parts and n fields
+        parts = [Call("A" if i % 2 == 0 else "B", "f%d" % i) for i in range(n)]
+        w = "".join("a" if i % 2 == 0 else "b" for i in range(n))
+        mk("sequence_of_%d_fields" % n, [Rule("S", Seq(*parts), export=True, no_skip_ws=True), Rule("A", Lit("a"), no_skip_ws=True, position=True),
+                                         Rule("B", Lit("b"), no_skip_ws=True, string=True)], ["a", "b"], [w, w[:-1], w + "a", w[:-2] + "aa"])
+        # an enum override / a multi-type field with n variants
+        vs = [Rule("V%d" % i, Lit("k" * (i // 26) + letters[i % 26]), no_skip_ws=True, string=(i % 3 == 0), position=(i % 4 == 1)) for i in range(n)]
+        mk("enum_of_%d_variants" % n, [Rule("S", Seq(Call("E", "e"), Clo(Call("E", "rest"))), export=True, no_skip_ws=True),
+                                       Rule("E", Choice(*[Call("V%d" % i, "@", boxed=(i % 6 == 5)) for i in range(n)]), no_skip_ws=True)] + vs,
+           ["a", "k", "z"], ["k" * ((n - 1) // 26) + letters[(n - 1) % 26], "abz", "kakb", "zka", "kkq"], maxlen=2)
+        mk("field_of_%d_types" % n, [Rule("S", Clo(Choice(*[Call("V%d" % i, "f") for i in range(n)])), export=True, no_skip_ws=True)] + vs,
+           ["a", "k", "z"], ["k" * ((n - 1) // 26) + letters[(n - 1) % 26], "abz", "kakb", "zka"], maxlen=2)
+        # n memoized rules tried at one offset
+        ms = [Rule("M%d" % i, Seq(Lit("a"), Lit(letters[i % 26])), no_skip_ws=True, memoize=True, position=(i % 2 == 0)) for i in range(n)]
+        mk("%d_memoized_rules" % n, [Rule("S", Choice(*([Seq(Call("M%d" % i, "m"), Lit("!")) for i in range(n)] + [Seq(Call("M%d" % (n - 1), "m"), Lit("?"))])),
+                                          export=True, no_skip_ws=True)] + ms,
+           ["a", "!", "?", "z"], ["a" + letters[(n - 1) % 26] + "?", "a" + letters[(n - 1) % 26] + "!", "ab!", "aa?", "az?"], maxlen=2)
+    # many checks on one rule
+    P = "verif_common::oracles::"
+    always = {"o": "always", "path": P + "chk_always", "name": P + "chk_always"}
+    never = {"o": "never", "path": P + "chk_never", "name": P + "chk_never"}
+    for k in (9, 17):
+        mk("%d_checks_last_fails" % k, [Rule("S", Choice(Call("N", "n"), Call("Y", "y")), export=True, no_skip_ws=True),
+                                        Rule("N", Lit("a"), no_skip_ws=True, checks=[always] * (k - 1) + [never]),
+                                        Rule("Y", Lit("a"), no_skip_ws=True, checks=[always] * k)], ["a", "b"], ["a", "aa"])
+    return out
+
+
+FAMILIES_BIG = fam_big
+
+
 def fam_rand(tier, seed):
     rnd = random.Random(seed * 7919 + 77)
     n = 80 if tier == "quick" else 500
@@ -2100,5 +2157,6 @@ def fam_randmemo(tier, seed):
 
 FAMILIES["rand"] = fam_rand
 FAMILIES["names"] = fam_names
+FAMILIES["big"] = fam_big
 FAMILIES["randuni"] = fam_randuni
 FAMILIES["randmemo"] = fam_randmemo
